@@ -84,8 +84,11 @@ func NewKad(base boson.Address, peers ...*Identity) (*Kad, error) {
 	return &Kad{Kad: k, Book: book, Light: light, P2P: p, db: db}, nil
 }
 
-// Close releases the kademlia and its metrics db.
+// Close releases the kademlia and its metrics db in the background: a kademlia whose
+// manage loop was never started takes 5 s to close.
 func (k *Kad) Close() {
-	_ = k.Kad.Close()
-	_ = k.db.Close()
+	go func() {
+		_ = k.Kad.Close()
+		_ = k.db.Close()
+	}()
 }
